@@ -1,6 +1,7 @@
 package harness
 
 import (
+	"net/url"
 	"encoding/json"
 	"fmt"
 	"testing"
@@ -59,7 +60,8 @@ func hsCell(t *testing.T, rec *Rec, g *Gates, scn string, cell map[string]any) {
 	}
 	// a repeated EIO parameter: which value counts is the server's business, but the session must be of ONE revision
 	repeated := eio == "3then4" || eio == "4then3"
-	eioQ := "&EIO=" + eio
+	// (any other value - "5", "04", "40", "+4", "4.0", a word - is not the string "4": revision 3)
+	eioQ := "&EIO=" + url.QueryEscape(eio)
 	switch eio {
 	case "absent":
 		eioQ = ""
